@@ -1,14 +1,31 @@
 ------------------------------ MODULE MCStream ------------------------------
+(* Constant domains of the Stream family's TLC configurations (quick / thorough tiers). *)
 EXTENDS Stream
 
 \* ---- quick tier domains
 QProtoSets == {<<"connect">>, <<"grpc">>, <<"grpcweb">>, <<"rest">>, <<"connect", "grpc", "grpcweb">>}
+SingleProtoSets == {<<"connect">>, <<"grpc">>, <<"grpcweb">>, <<"rest">>}
 QCodecSeqs == {<<"proto">>, <<"json">>, <<"proto", "json">>}
+OneCodecSeqs == {<<"proto">>}
 QCompSeqs  == {<<>>, <<"gzip">>}
+NoCompSeqs == {<<>>}
+GzCompSeqs == {<<"gzip">>}
 QForms     == Forms
 QCodecs    == {"proto", "json"}
 QComps     == {"", "gzip"}
+NoComps    == {""}
 QMethods   == {"Post", "Query", "CStream", "SStream", "Bidi"}
+EMethods   == {"Post", "Query", "SStream"}
+FMethods   == {"Post", "CStream", "SStream"}
+OkOnly     == {0}
+NoStatuses == {}
+QCodes     == {1, 3, 5, 8, 13, 16, 17, 99}
+TCodes     == 1..17 \cup {20, 99, 65536}
+HCodes     == {0, 7}
+QStatuses  == {400, 401, 403, 404, 418, 429, 500, 502, 503, 504}
+TStatuses  == (201..599) \ {204, 304}
+QFlags     == {2, 3, 128, 255}
+TFlags     == 2..255
 
 \* ---- thorough tier domains
 TProtoSets == QProtoSets \cup {<<"grpc", "rest">>, <<"grpcweb", "rest">>, <<"connect", "rest">>, <<"grpc", "grpcweb">>,
